@@ -348,6 +348,7 @@ pub(crate) async fn handle_actor_stopping_event(
   // First, perform the resource cleanup regardless of the shutdown phase.
   // This removes the endpoint from the main map.
   // This function returns true if the cleanup might warrant a reconnect.
+  let reconnect_target = pipe_manager::reconnect_target_of(&core_arc, endpoint_uri_opt, stopped_actor_id);
   let should_consider_reconnect = pipe_manager::cleanup_stopped_child_resources(
       core_arc.clone(),
       socket_logic_strong,
@@ -374,9 +375,7 @@ pub(crate) async fn handle_actor_stopping_event(
       );
       // Only reconnect if the cleanup indicated it was an outbound session that failed.
       if should_consider_reconnect {
-        if let Some(uri_str) = endpoint_uri_opt {
-          let target_uri = uri_str.to_string();
-
+        if let Some(target_uri) = reconnect_target {
           // Calculate delay and update state
           let mut state = core_arc.core_state.write();
           let options = state.options.clone();
